@@ -92,6 +92,13 @@ theorem C18_depth_too_small_witness :
     treeReduce 2 1 (fold1 (· + ·) (0 : Int)) (fold1 (· + ·) 0) [1, 2, 3] = [3, 3] := by
   simp [treeReduce, combineRounds, partialReduce, partitionAll_step, partitionAll_nil, fold1]
 
+/-- and why fan-in 1 (`split_every = {axis: 1}`) can never work: no depth reduces anything. -/
+theorem C18_fanin_one_never_reduces {β} (f : List β → β) (hf : ∀ x, f [x] = x) (depth : Nat) (bs : List β) :
+    treeReduce 1 depth f f bs = bs := treeReduce_one f hf depth bs
+
+example : treeReduce 1 5 (fold1 (· + ·) (0 : Int)) (fold1 (· + ·) 0) [1, 2, 3] = [1, 2, 3] :=
+  C18_fanin_one_never_reduces _ (fun _ => rfl) 5 _
+
 example : treeReduce 2 2 (fold1 (· + ·) (0 : Int)) (fun l => fold1 (· + ·) 0 l) [1, 2, 3] = [fold1 (· + ·) 0 [1, 2, 3]] :=
   C18_treeReduce_eq_fold (· + ·) add_assoc_int 0 id (by decide) (by decide) (by simp) (by decide)
 
